@@ -246,8 +246,8 @@ def run(prog: Program, res: Result, tier: str) -> None:
     if "type(graph).__name__" in wtxt and "stereo.__class__.__name__" in wtxt:
         res.ok("J-REGISTRY", inst, w.loc())
     else:
-        res.bad("J-REGISTRY", "writer class names", w.loc(),
-                f"{inst}: not found", instance=inst)
+        res.unrecognised("J-REGISTRY", inst, w.loc(),
+                         "how the writer names classes")
     # -- payload ----------------------------------------------------------------
     n_payload = 0
     for node in ast.walk(w.node):
@@ -364,31 +364,52 @@ def run(prog: Program, res: Result, tier: str) -> None:
                "graph.bond_stereo.items()": "bond stereo",
                "graph.atom_stereo_changes.items()": "atom stereo changes",
                "graph.bond_stereo_changes.items()": "bond stereo changes"}
-    for expr, what in wants_w.items():
-        inst = f"as_dict reads {what} ({expr})"
-        if expr in wtxt:
+    views = {"atoms": ("atoms", "atoms_with_attributes", "_atom_attrs"),
+             "elements": ("atom_types", "get_atom_type", "atoms_with_attributes"),
+             "bonds": ("bonds", "bonds_with_attributes", "_bond_attrs"),
+             "atom stereo": ("atom_stereo", "get_atom_stereo", "stereo",
+                             "_atom_stereo"),
+             "bond stereo": ("bond_stereo", "get_bond_stereo", "stereo",
+                             "_bond_stereo"),
+             "atom stereo changes": ("atom_stereo_changes",
+                                     "get_atom_stereo_change",
+                                     "_atom_stereo_change"),
+             "bond stereo changes": ("bond_stereo_changes",
+                                     "get_bond_stereo_change",
+                                     "_bond_stereo_change")}
+    used = {n.attr for n in ast.walk(w.node) if isinstance(n, ast.Attribute)
+            and norm(n.value) == "graph"}
+    for what, alts in views.items():
+        inst = f"as_dict reads {what} (one of {alts})"
+        if used & set(alts):
             res.ok("J-COVER", inst, w.loc())
         else:
             res.bad("J-COVER", f"as_dict misses {what}", w.loc(),
-                    f"{inst}: not found", instance=inst)
+                    f"{inst}: none of these views of the graph is read, so "
+                    f"the {what} never reach the JSON document",
+                    instance=inst)
     wants_r = ["graph.add_atom(", "graph.add_bond(", "graph.set_atom_stereo(",
                "graph.set_bond_stereo(", "graph.set_atom_stereo_change(",
                "graph.set_bond_stereo_change("]
+    rcalls = {n.func.attr for n in ast.walk(r.node) if isinstance(n, ast.Call)
+              and isinstance(n.func, ast.Attribute)
+              and norm(n.func.value) == "graph"}
     for expr in wants_r:
+        meth = expr[len("graph."):-1]
         inst = f"json_deserialize restores through {expr})"
-        if expr in rtxt:
+        if meth in rcalls:
             res.ok("J-COVER", inst, r.loc())
         else:
             res.bad("J-COVER", f"json_deserialize misses {expr}", r.loc(),
-                    f"{inst}: not found", instance=inst)
+                    f"{inst}: the reader never calls graph.{meth}(...), so "
+                    "this part of the state is not restored", instance=inst)
     # identifiers restored as ints, elements by symbol
     inst = "atoms restored as add_atom(int(atom_id), atom_type)"
     if "graph.add_atom(int(atom_id), atom_type)" in rtxt and \
             "SYMBOLS[a_type]" in wtxt:
         res.ok("J-COVER", inst, r.loc())
     else:
-        res.bad("J-COVER", "atom restore", r.loc(), f"{inst}: not found",
-                instance=inst)
+        res.unrecognised("J-COVER", inst, r.loc(), "how atoms are restored")
     res.exhaustive = True
     res.trusted += ["section keys are string literals in both functions",
                     "json round-trips lists/tuples, ints, None and strings"]
